@@ -125,7 +125,309 @@ pub fn name_case_strategy() -> impl Strategy<Value = NameCase> {
         .prop_map(|(dir, stem, comps, so_marker, soname, exec, offset)| NameCase { dir, stem, comps, so_marker, soname, exec, offset })
 }
 
+// ---------------------------------------------------------------------------
+// live: hostile registers / stack pointers / names x options
+// ---------------------------------------------------------------------------
+
+pub fn check_live(c: &crate::props::c01::Case) -> Verdict {
+    use crate::props::c01::*;
+    use crate::vcore::dest::Dest;
+    use crate::vcore::target::*;
+    use crate::vcore::world::*;
+    init_scratch();
+    let scratch = Target::new_scratch();
+    let bt = build(c, &scratch);
+    let t = match Target::spawn(&bt.spec, scratch) {
+        Ok(t) => t,
+        Err(e) => return Verdict::Inconclusive(format!("target setup: {}", e.split(':').next().unwrap_or(""))),
+    };
+    if !t.wait_settled(&bt.spec) {
+        return Verdict::Inconclusive("target did not settle".into());
+    }
+    let opts = opts_of(c, &bt, &t);
+    let mut w = make_writer(t.pid, &opts);
+    let mut dest = Dest::new(vec![], 0);
+    let out = with_watchdog(30.0, || run_dump(&mut w, &mut dest));
+    let mut classes = vec![];
+    match out {
+        DumpOutcome::Ok(_) => classes.push("ok".to_string()),
+        DumpOutcome::Err(e) => classes.push(format!("err:{}", e.split('(').next().unwrap_or(""))),
+        DumpOutcome::Panic(loc, msg) => return panic_verdict(&loc, &msg),
+    }
+    let hostile_addr = |a: &AddrG| matches!(a, AddrG::Unmapped | AddrG::Zero | AddrG::Top | AddrG::Misaligned(_) | AddrG::Abs(_));
+    let hostile = c.opts.crash.as_ref().map(|cr| hostile_addr(&cr.rip) || hostile_addr(&cr.rsp)).unwrap_or(false)
+        || c.opts.skip.as_ref().map(hostile_addr).unwrap_or(false)
+        || c.threads.iter().any(|t| !matches!(t.sp, SpG::InStack { .. }) || matches!(t.name, NameG::Raw(_)));
+    if hostile {
+        classes.push("hostile-value".into());
+    }
+    Verdict::pass_c(if hostile { Some(fp_json(c)) } else { None }, classes)
+}
+
+// ---------------------------------------------------------------------------
+// the /dev rule: mapped files under /dev must never be opened
+// ---------------------------------------------------------------------------
+
+#[derive(Debug, Clone, PartialEq, Eq, Hash, Serialize, Deserialize)]
+pub struct DevCase {
+    /// per file: (content kind 0 valid ELF with id, 1 valid ELF without id, 2 non-ELF, 3 truncated ELF; executable mapping; unlink after mapping)
+    pub files: Vec<(u8, bool, bool)>,
+    pub with_crash: bool,
+}
+
+pub fn check_dev(c: &DevCase) -> Verdict {
+    use crate::vcore::dest::Dest;
+    use crate::vcore::elf::*;
+    use crate::vcore::target::*;
+    use crate::vcore::world::*;
+    init_scratch();
+    let scratch = Target::new_scratch();
+    let tag = format!("verif-{}-{}", std::process::id(), fingerprint(&scratch.to_string_lossy().to_string()) & 0xffff_ffff);
+    let dir = std::path::PathBuf::from("/dev/shm").join(&tag);
+    let _ = std::fs::create_dir_all(&dir);
+    struct Cleanup(std::path::PathBuf);
+    impl Drop for Cleanup {
+        fn drop(&mut self) {
+            let _ = std::fs::remove_dir_all(&self.0);
+        }
+    }
+    let _cleanup = Cleanup(dir.clone());
+    let mut b = Builder::new();
+    let mut paths = vec![];
+    for (i, (kind, exec, unlink)) in c.files.iter().enumerate() {
+        let spec = ElfSpec {
+            class64: true, little: true, text_len: 300, text_seed: i as u64, build_id: if kind % 4 == 0 { Some(vec![i as u8 + 1; 20]) } else { None },
+            note_phdr: true, note_section: true, note_align: 4, other_notes: 0, soname: Some(format!("libdev{i}.so")), dyn_phdr: true, dyn_section: true, dyn_order: 0,
+            sections: kind % 4 == 0, extra_phdrs: 0, pages: 2, seg2_delta_pages: 0,
+        };
+        let mut bytes = build(&spec).bytes;
+        match kind % 4 {
+            2 => bytes = (0..8192u32).map(|o| (o * 13 + 5) as u8).collect(),
+            3 => {
+                // ELF header intact, program header table offset beyond the file
+                bytes[32..40].copy_from_slice(&0x10_0000u64.to_le_bytes());
+            }
+            _ => {}
+        }
+        bytes.resize(8192, 0);
+        let path = dir.join(format!("dev file {i}.so.1")).to_string_lossy().into_owned().into_bytes();
+        b.spec.files.push((path.clone(), bytes));
+        let addr = b.next_map_addr();
+        b.add_file_map_at(addr, 2, if *exec { 5 } else { 1 }, &path, 0, false);
+        if *unlink {
+            b.spec.unlinks.push(path.clone());
+        } else {
+            paths.push(path);
+        }
+    }
+    let spec = b.spec.clone();
+    let t = match Target::spawn(&spec, scratch) {
+        Ok(t) => t,
+        Err(e) => return Verdict::Inconclusive(format!("target setup: {}", e.split(':').next().unwrap_or(""))),
+    };
+    if !t.wait_settled(&spec) {
+        return Verdict::Inconclusive("target did not settle".into());
+    }
+    // watch the files now that the target has finished mapping them
+    let ifd = unsafe { libc::inotify_init1(libc::IN_NONBLOCK | libc::IN_CLOEXEC) };
+    if ifd < 0 {
+        return Verdict::Inconclusive("inotify unavailable".into());
+    }
+    let mut wds = vec![];
+    for p in &paths {
+        let cp = std::ffi::CString::new(p.clone()).unwrap();
+        let wd = unsafe { libc::inotify_add_watch(ifd, cp.as_ptr(), libc::IN_OPEN | libc::IN_ACCESS) };
+        wds.push((wd, String::from_utf8_lossy(p).into_owned()));
+    }
+    let mut opts = DumpOpts { blamed: t.pid, ..Default::default() };
+    if c.with_crash {
+        let mut s = 5u64;
+        let gregs: Vec<i64> = (0..23).map(|_| splitmix(&mut s) as i64).collect();
+        opts.crash = Some(CrashContext2 { gregs, fp: fpstate_of_fx(&sentinel_fx(1)), signo: 6, code: 0, addr: 0, tid: t.pid });
+    }
+    let mut w = make_writer(t.pid, &opts);
+    let mut dest = Dest::new(vec![], 0);
+    let out = run_dump(&mut w, &mut dest);
+    // collect events
+    let mut opened: Vec<String> = vec![];
+    let mut buf = [0u8; 4096];
+    loop {
+        let n = unsafe { libc::read(ifd, buf.as_mut_ptr() as *mut libc::c_void, buf.len()) };
+        if n <= 0 {
+            break;
+        }
+        let mut off = 0usize;
+        while off + 16 <= n as usize {
+            let wd = i32::from_ne_bytes(buf[off..off + 4].try_into().unwrap());
+            let len = u32::from_ne_bytes(buf[off + 12..off + 16].try_into().unwrap()) as usize;
+            if let Some((_, p)) = wds.iter().find(|(w, _)| *w == wd) {
+                opened.push(p.clone());
+            }
+            off += 16 + len;
+        }
+    }
+    unsafe { libc::close(ifd) };
+    if let DumpOutcome::Panic(loc, msg) = &out {
+        return panic_verdict(loc, msg);
+    }
+    if let Some(p) = opened.first() {
+        return Verdict::viol("C02:dev-file-opened", format!("the dumper opened/read the mapped file {p} which lives under /dev (files {:?})", c.files));
+    }
+    let kinds: std::collections::BTreeSet<u8> = c.files.iter().map(|f| f.0 % 4).collect();
+    Verdict::pass_c(if !paths.is_empty() { Some(fp_json(c)) } else { None }, kinds.iter().map(|k| format!("content:{k}")).collect())
+}
+
+// ---------------------------------------------------------------------------
+// live: mapped files with hostile names (private tmpfs root, so that the
+// dumper sees the bare names)
+// ---------------------------------------------------------------------------
+
+pub const PIVOT_NAMES: [&[u8]; 10] = [
+    b"/SYSVab",
+    b"/SYSV00000000 (deleted)",
+    b"/lib.so.1.2.3\xc3\xa94",
+    b"/dev/x",
+    b"/a b (deleted)",
+    b"/[stack]",
+    b"/lib\xff\xfe.so.7",
+    b"/x.so.1.2.3.4.5.6.7.8.9",
+    b"/SYSVabcdef01",
+    b"/.so.",
+];
+
+#[derive(Debug, Clone, PartialEq, Eq, Hash, Serialize, Deserialize)]
+pub struct PivotCase {
+    /// (name index, executable)
+    pub files: Vec<(u8, bool)>,
+}
+
+pub fn check_pivot(c: &PivotCase) -> Verdict {
+    use crate::vcore::dest::Dest;
+    use crate::vcore::target::*;
+    use crate::vcore::world::*;
+    init_scratch();
+    let scratch = Target::new_scratch();
+    let mut b = Builder::new();
+    let mut files = vec![];
+    let mut used = std::collections::BTreeSet::new();
+    for (k, exec) in &c.files {
+        let name = PIVOT_NAMES[*k as usize % PIVOT_NAMES.len()].to_vec();
+        if !used.insert(name.clone()) {
+            continue;
+        }
+        files.push((name.clone(), 8192u64, 0x51 + *k as u64, b"\x7fELF\x02\x01\x01".to_vec()));
+        let addr = b.next_map_addr();
+        b.add_file_map_at(addr, 2, if *exec { 5 } else { 1 }, &name, 0, false);
+    }
+    b.spec.pivot = Some(files);
+    let spec = b.spec.clone();
+    let t = match Target::spawn(&spec, scratch) {
+        Ok(t) => t,
+        Err(e) => return Verdict::Inconclusive(format!("target setup: {}", e.split(':').next().unwrap_or(""))),
+    };
+    if !t.wait_settled(&spec) {
+        return Verdict::Inconclusive("target did not settle".into());
+    }
+    let opts = DumpOpts { blamed: t.pid, ..Default::default() };
+    let mut w = make_writer(t.pid, &opts);
+    let mut dest = Dest::new(vec![], 0);
+    let out = with_watchdog(30.0, || run_dump(&mut w, &mut dest));
+    match out {
+        DumpOutcome::Panic(loc, msg) => panic_verdict(&loc, &msg),
+        DumpOutcome::Ok(_) => Verdict::pass_c(Some(fp_json(c)), vec!["ok".into()]),
+        DumpOutcome::Err(e) => Verdict::pass_c(Some(fp_json(c)), vec![format!("err:{}", e.split('(').next().unwrap_or(""))]),
+    }
+}
+
+// ---------------------------------------------------------------------------
+// hostile memory-map texts (names the kernel can report) through the parser the dumper uses
+// ---------------------------------------------------------------------------
+
+#[derive(Debug, Clone, PartialEq, Eq, Hash, Serialize, Deserialize)]
+pub struct MapsCase {
+    pub names: Vec<Vec<u8>>,
+    pub gate_first: bool,
+}
+
+pub fn check_maps_text(c: &MapsCase) -> Verdict {
+    use procfs_core::FromRead;
+    let mut text: Vec<u8> = vec![];
+    for (i, n) in c.names.iter().enumerate() {
+        let start = 0x10000 + i as u64 * 0x3000;
+        text.extend_from_slice(format!("{:x}-{:x} r-xp 00000000 08:01 {} ", start, start + 0x2000, 100 + i).as_bytes());
+        text.extend_from_slice(b"                   ");
+        text.extend(n.iter().map(|b| if *b == b'\n' { b' ' } else { *b }));
+        text.push(b'\n');
+    }
+    let mut classes = vec![];
+    match procfs_core::process::MemoryMaps::from_read(&text[..]) {
+        Ok(m) => {
+            classes.push("parsed".to_string());
+            let _ = minidump_writer::maps_reader::MappingInfo::aggregate(m, if c.gate_first { Some(0x10000) } else { None });
+        }
+        Err(_) => classes.push("rejected".into()),
+    }
+    Verdict::pass_c(Some(fp_json(c)), classes)
+}
+
+fn hostile_name_strategy() -> impl Strategy<Value = Vec<u8>> {
+    prop_oneof![
+        3 => proptest::collection::vec(prop_oneof![(b'0'..=b'9'), (b'a'..=b'f'), Just(b'z'), Just(b' '), Just(0xc3u8), Just(0xa9u8)], 0..14).prop_map(|mut v| { let mut n = b"/SYSV".to_vec(); n.append(&mut v); n }),
+        2 => proptest::collection::vec(prop_oneof![(b'0'..=b'9'), Just(b':'), Just(b']'), Just(b'x')], 0..8).prop_map(|mut v| { let mut n = b"[stack:".to_vec(); n.append(&mut v); n }),
+        2 => proptest::collection::vec(prop_oneof![(0x20u8..0x7f), (0x80u8..=0xff)], 0..40).prop_map(|mut v| { let mut n = b"/".to_vec(); n.append(&mut v); n }),
+        1 => Just(b"[".to_vec()),
+        1 => Just(b"[]".to_vec()),
+        1 => Just(b"/dev/zero (deleted)".to_vec()),
+        1 => Just(vec![]),
+        1 => proptest::collection::vec(prop_oneof![(b'A'..=b'Z'), Just(b':'), Just(b' ')], 1..12),
+    ]
+}
+
 pub fn run(ctx: &mut LaneCtx) {
+    ctx.run_sub(
+        SubSpec {
+            name: "live-hostile",
+            cases: (480, 40_000),
+            rule: "live targets (as C01) with emphasis on hostile values: crash-context rip/rsp and principal address from {0, 1, 4095, 2^47-8, 2^47, 0xffff800000000000, [vsyscall], top of the address space, unmapped, misaligned, inside stacks/mappings}, thread stack pointers in guard pages and holes, non-UTF-8 thread names, all option combinations; oracle = dump returns Ok or Err within 30 s, no panic; non-trivial = at least one hostile value; distinct = hash of case",
+            strategy: crate::props::c01::case_strategy(10).boxed(),
+            max_shrink_iters: 150,
+            log_current: true,
+        },
+        check_live,
+    );
+    ctx.run_sub(
+        SubSpec {
+            name: "dev-rule",
+            cases: (96, 6_000),
+            rule: "targets mapping 1..4 files that live under /dev/shm (>= 4096 bytes, offset 0, executable or not; content valid ELF with id / valid ELF without id / non-ELF / ELF with unreadable program headers; optionally unlinked) with an inotify watch (IN_OPEN|IN_ACCESS) installed on each after the target finished mapping; oracle = no inotify event during the dump; non-trivial = at least one watched file; distinct = hash of case",
+            strategy: (proptest::collection::vec((0u8..4, any::<bool>(), proptest::bool::weighted(0.2)), 1..5), any::<bool>()).prop_map(|(files, with_crash)| DevCase { files, with_crash }).boxed(),
+            max_shrink_iters: 100,
+            log_current: true,
+        },
+        check_dev,
+    );
+    ctx.run_sub(
+        SubSpec {
+            name: "live-pivot-names",
+            cases: (48, 3_000),
+            rule: "targets that pivot_root into a private tmpfs and map files there, so that the dumper sees bare hostile mapped-file names (/SYSVab, /SYSV00000000 (deleted), /lib.so.1.2.3e-acute4, /dev/x, names with spaces / brackets / invalid UTF-8 / many version components); oracle = dump returns Ok or Err, no panic; every case non-trivial; distinct = hash of case",
+            strategy: proptest::collection::vec((0u8..10, any::<bool>()), 1..4).prop_map(|files| PivotCase { files }).boxed(),
+            max_shrink_iters: 60,
+            log_current: true,
+        },
+        check_pivot,
+    );
+    ctx.run_sub(
+        SubSpec {
+            name: "maps-text",
+            cases: (20_000, 1_000_000),
+            rule: "memory-map texts whose mapped-file names are hostile byte strings the kernel can report (/SYSV + 0..13 arbitrary characters, [stack:...] variants, arbitrary non-UTF-8 bytes, empty brackets, capital-letter names) through the parser and aggregator the dumper uses; oracle = Ok or Err, no panic; every case non-trivial; distinct = hash of case",
+            strategy: (proptest::collection::vec(hostile_name_strategy(), 1..5), any::<bool>()).prop_map(|(names, gate_first)| MapsCase { names, gate_first }).boxed(),
+            max_shrink_iters: 2048,
+            log_current: false,
+        },
+        check_maps_text,
+    );
     ctx.assume("bounded time: a call that has not returned after 20 s of wall time while burning CPU is a hang (exit code 42 of the lane, confirmed by replaying the case alone); a call merely blocked is inconclusive");
     ctx.run_sub(
         SubSpec {
@@ -155,6 +457,10 @@ pub fn replay(sub: &str, case: &Value) -> Verdict {
     match sub {
         "dso-direct" => replay_case::<DsoCase>(case, check_dso),
         "hostile-names" => replay_case::<NameCase>(case, check_name),
+        "live-hostile" => replay_case::<crate::props::c01::Case>(case, check_live),
+        "dev-rule" => replay_case::<DevCase>(case, check_dev),
+        "live-pivot-names" => replay_case::<PivotCase>(case, check_pivot),
+        "maps-text" => replay_case::<MapsCase>(case, check_maps_text),
         _ => Verdict::Inconclusive(format!("unknown sub {sub}")),
     }
 }
